@@ -44,23 +44,31 @@ type plDgram struct {
 }
 
 type plJob struct {
-	ID         int        `json:"id"`
-	Proto      string     `json:"proto"`
-	Workers    int        `json:"workers"`
-	Seed       int64      `json:"seed"`
-	UDPSize    int        `json:"udpsize"`
-	Templates  []plDgram  `json:"templates"`   // announced and fully processed first
-	Data       []plDgram  `json:"data"`        // then these, interleaved by the scheduler
-	Lazy       int        `json:"lazy"`        // the consumer takes a message with probability 1/Lazy per move
-	Retire     int        `json:"retire"`      // dynamic workers: how many workers are told to quit during the data phase
-	Filter     []uint32   `json:"filter"`      // sflow-type-filter
-	Scheds     [][]string `json:"scheds"`      // TLC-generated schedules (spec/PipelineSched.tla) to replay one after the other; Data = the model's datagrams
-	Poison     []int      `json:"poison"`      // what a recycled buffer holds behind the datagram just read: repeated well-formed sets / records
-	Free       bool       `json:"free"`        // no gates: the workers run in parallel as in the collector (used under the race detector)
-	Verbose    bool       `json:"verbose"`     // the collector runs with -verbose
-	Backlog    bool       `json:"backlog"`     // the receive loop is ahead: the datagram queue is full and the loop is blocked handing the next one over
-	MirrorLate bool       `json:"mirror_late"` // mirroring is enabled only after the templates have been processed
-	Mirror     string     `json:"mirror"`      // "": mirroring off; "on": enabled, the copies are taken and given back like the mirror workers do; "full": enabled and the mirror queue is full
+	ID         int          `json:"id"`
+	Proto      string       `json:"proto"`
+	Workers    int          `json:"workers"`
+	Seed       int64        `json:"seed"`
+	UDPSize    int          `json:"udpsize"`
+	Templates  []plDgram    `json:"templates"`   // announced and fully processed first
+	Data       []plDgram    `json:"data"`        // then these, interleaved by the scheduler
+	Lazy       int          `json:"lazy"`        // the consumer takes a message with probability 1/Lazy per move
+	Retire     int          `json:"retire"`      // dynamic workers: how many workers are told to quit during the data phase
+	Filter     []uint32     `json:"filter"`      // sflow-type-filter
+	Scheds     [][]string   `json:"scheds"`      // TLC-generated schedules (spec/PipelineSched.tla) to replay one after the other; Data = the model's datagrams
+	Poison     []int        `json:"poison"`      // what a recycled buffer holds behind the datagram just read: repeated well-formed sets / records
+	Free       bool         `json:"free"`        // no gates: the workers run in parallel as in the collector (used under the race detector)
+	Neighbour  *plNeighbour `json:"neighbour"`   // another protocol of the same collector, with its own max-udp-size, at work before this one
+	Verbose    bool         `json:"verbose"`     // the collector runs with -verbose
+	Backlog    bool         `json:"backlog"`     // the receive loop is ahead: the datagram queue is full and the loop is blocked handing the next one over
+	MirrorLate bool         `json:"mirror_late"` // mirroring is enabled only after the templates have been processed
+	Mirror     string       `json:"mirror"`      // "": mirroring off; "on": enabled, the copies are taken and given back like the mirror workers do; "full": enabled and the mirror queue is full
+}
+
+// plNeighbour: the collector runs all four protocols in one process; their settings are independent
+type plNeighbour struct {
+	Proto   string    `json:"proto"`
+	UDPSize int       `json:"udpsize"`
+	Data    []plDgram `json:"data"`
 }
 
 type plEvent struct {
@@ -361,6 +369,29 @@ func plRun(job plJob) (res plResult) {
 	ad.pool.New = func() interface{} { newCalled = true; return make([]byte, job.UDPSize) }
 	defer func() { ad.pool.New = origNew }()
 
+	if nb := job.Neighbour; nb != nil {
+		// the neighbour protocol's worker runs freely (no hooks yet), handles its datagrams and goes idle
+		na := plAdapter(nb.Proto, nb.UDPSize)
+		na.start(make(chan struct{}))
+		for _, d := range nb.Data {
+			b := na.pool.Get().([]byte)
+			body := plBytes(d.Buf)
+			if len(body) > len(b) {
+				body = body[:len(b)]
+			}
+			n := copy(b, body)
+			na.send(&net.UDPAddr{IP: plBytes(d.Exp), Port: 4001}, b[:n])
+		}
+		for w := 0; w < 2000 && na.qlen() > 0; w++ {
+			time.Sleep(time.Millisecond)
+		}
+		time.Sleep(30 * time.Millisecond)
+		for len(na.mq) > 0 {
+			<-na.mq
+		}
+		ad = plAdapter(job.Proto, job.UDPSize) // (the adapters set the protocol's own size option)
+		ad.pool.New = func() interface{} { newCalled = true; return make([]byte, job.UDPSize) }
+	}
 	events := make(chan plHook, 64)
 	verifHook = func(ev, proto string, body, payload []byte) {
 		h := plHook{g: plGoid(), ev: ev, body: body, payload: append([]byte{}, payload...), resume: make(chan struct{})}
